@@ -78,8 +78,24 @@ pub fn ranking_history(o: &Oracle, seed: u64, rep: &Report, rounds: u64) {
     for _ in 0..rounds {
         let it = &pool[rng.below(pool.len() as u64) as usize];
         let h = Hand::from_words(&it.words);
-        let which = rng.below(11);
+        let which = rng.below(12);
         let blank5 = it.words.len() == 5 && it.words.contains(&0);
+        if which == 11 {
+            // the four predicates (C13) on valid five-card items, against the class of the cards
+            if it.valid && it.words.len() == 5 {
+                let cls = &o.classes[it.value as usize - 1];
+                let f = Five::from([it.words[0], it.words[1], it.words[2], it.words[3], it.words[4]]);
+                let e = (cls.flush, cls.category == "Straight" || cls.category == "StraightFlush", cls.category == "StraightFlush", cls.ranks == [12, 3, 2, 1, 0]);
+                let got = guarded(|| (f.is_flush(), f.is_straight(), f.is_straight_flush(), f.is_wheel()));
+                if got != Ok(e) {
+                    rep.violation(json!({"property": rep.property, "why": "in a long single-threaded interleaving on a recurring pool of hands, the flush / straight / straight-flush / wheel predicates of a hand disagreed with its category: the result depends on the calls made before",
+                        "event": {"op": "rank5", "words": hilo_arr(&it.words)}, "expected": {"flush": e.0, "straight": e.1, "straight_flush": e.2, "wheel": e.3}, "note": "history-dependent"}));
+                    break;
+                }
+            }
+            n += 1;
+            continue;
+        }
         let bad: Option<(&str, Value)> = match guarded(|| match which {
             9 | 10 => {
                 // the public product-search helper, with keys related to the pool: 0 (any hand with a blank),
@@ -177,8 +193,81 @@ pub fn words_history(o: &Oracle, seed: u64, rep: &Report, rounds: u64) {
     for _ in 0..rounds {
         let w = words[rng.below(words.len() as u64) as usize];
         let x = sets[rng.below(sets.len() as u64) as usize];
-        let which = rng.below(8);
+        let which = rng.below(16);
+        let w2 = words[rng.below(words.len() as u64) as usize];
         let ok = guarded(|| match which {
+            8 => {
+                // two-card hand from a set (C16), by the rules
+                use ckc_rs::cards::two::Two;
+                let n = x.count_ones();
+                match Two::try_from(x) {
+                    Ok(t) => {
+                        let hi = 63 - x.leading_zeros();
+                        n == 2 && hi < 52 && t.to_arr()[0] == o.cards.iter().find(|c| c.bit == hi).unwrap().w
+                            && t.to_arr()[1] == o.cards.iter().find(|c| c.bit == x.trailing_zeros()).unwrap().w && BinaryCard::from_two(t) == x
+                    }
+                    Err(e) => {
+                        let e = format!("{:?}", e);
+                        if n < 2 { e == "NotEnoughCards" } else if n > 2 { e == "TooManyCards" } else { e == "InvalidBinaryFormat" && 63 - x.leading_zeros() >= 52 }
+                    }
+                }
+            }
+            9 => {
+                // Chen score of two pool words when both are distinct cards (either order, related suits)
+                let (a, b) = (w, w2);
+                if is_card(a) && is_card(b) && a != b {
+                    let (ca, cb) = (&o.cards[o.word_to_card[&a]], &o.cards[o.word_to_card[&b]]);
+                    let e = o.chen[&(ca.rank, cb.rank, ca.suit == cb.suit)];
+                    let t = Two::new(a, b);
+                    t.chen_formula() as i32 == e.0 && t.get_gap() == e.1 && t.is_suited() == (ca.suit == cb.suit) && t.is_pocket_pair() == (ca.rank == cb.rank)
+                } else {
+                    true
+                }
+            }
+            10 => {
+                // deck access on related indexes
+                use ckc_rs::deck::Deck;
+                let i = (w as u64) % 64;
+                let idx = match x % 4 { 0 => i, 1 => i + 52, 2 => i + (1u64 << 32), _ => u64::MAX - i };
+                Deck::get(idx as usize) == if idx < 52 { o.cards[idx as usize].w } else { 0 }
+            }
+            11 => {
+                // accessors on a card, possibly marked
+                match o.word_to_card.get(&(w & o.flag_word("strip_mask"))) {
+                    Some(&i) => {
+                        let c = &o.cards[i];
+                        w.get_rank_prime() == c.prime && w.get_rank_bit() == c.rank_bit && w.get_suit_bit() == c.suit_bit
+                            && format!("{:?}", w.get_card_rank()) == c.rank_name && format!("{:?}", w.get_card_suit()) == c.suit_name
+                            && w.get_rank_char() == c.rank_char && w.get_suit_char() == c.suit_char
+                    }
+                    None => true,
+                }
+            }
+            12 => w.flag_as_pair() == w | o.flag_word("pair") && w.flag_as_quads() == w | o.flag_word("quads") && w.flag_as_pair().flag_as_pair() == w.flag_as_pair(),
+            13 => {
+                // construction from the members a card decodes to gives the card back
+                match o.word_to_card.get(&w) {
+                    Some(&i) => CKCNumber::create(w.get_card_rank(), w.get_card_suit()) == o.cards[i].w,
+                    None => true,
+                }
+            }
+            14 => {
+                // comparison of two hand ranks converted from related values
+                let a = (w >> 3) as u16;
+                let b = match x % 5 { 0 => a, 1 => a.wrapping_add(1), 2 => a ^ 0x8000, 3 => !a, _ => (x >> 7) as u16 };
+                let (ra, rb) = (HandRank::from(a), HandRank::from(b));
+                let real = |v: u16| v >= 1 && v <= o.n_classes;
+                let c = ra.cmp(&rb);
+                let anchor = if real(a) && real(b) { c == b.cmp(&a) } else if !real(a) && real(b) { c == std::cmp::Ordering::Less }
+                             else if real(a) && !real(b) { c == std::cmp::Ordering::Greater } else { (c == std::cmp::Ordering::Equal) == (a == b) };
+                anchor && c == rb.cmp(&ra).reverse() && (ra == rb) == (a == b) && (ra < rb) == (c == std::cmp::Ordering::Less)
+                    && format!("{:?}", ra.name) == o.name_of(a) && format!("{:?}", ra.class) == o.class_of(a)
+            }
+            15 => {
+                // fold-in / has on two pool sets
+                let y = sets[(x % sets.len() as u64) as usize];
+                x.fold_in(y) == x | y && x.has(y) == (x & y == y) && x.is_single_card() == (x.count_ones() == 1)
+            }
             0 => CardNumber::filter(w) == if is_card(w) { w } else { 0 },
             1 => BinaryCard::from_ckc(w) == o.word_to_card.get(&w).map(|&i| 1u64 << o.cards[i].bit).unwrap_or(0),
             2 => !is_card(w) || w.shift_suit() == o.cards[o.word_to_card[&w]].shift,
@@ -453,4 +542,413 @@ pub fn peel_interleaving(o: &Oracle, seed: u64, rep: &Report, rounds: u64) {
     }
     rep.eval(calls);
     rep.space("history probe: six live sets (fresh, suit-rotated twins, sub-/supersets of one another) peeled one card at a time in a seeded interleaving", false, calls);
+}
+
+// ---------------------------------------------------------------------------------------------------
+// "Repeat, then a natural neighbour": f(x) once, twice or three times in a row (a memo is often armed only
+// by a repeated call), then f(y) for inputs y naturally related to x -- the same cards in another suit, one
+// card changed, operands swapped, the value next to it, the index plus a power of two, the set before and
+// after a peel.  y's result is checked against the oracle.  One thread, deterministic.
+// ---------------------------------------------------------------------------------------------------
+
+fn di(r: usize, s: usize) -> usize {
+    (3 - s) * 13 + (12 - r)
+}
+
+/// neighbours of a hand given by deck indices: one card re-suited, one card moved to the next rank, two
+/// cards swapping suits, two slots swapped
+fn hand_neighbours(o: &Oracle, idx: &[usize]) -> Vec<Vec<usize>> {
+    let n = idx.len();
+    let mut out = vec![];
+    for a in 0..n {
+        let c = &o.cards[idx[a]];
+        for ds in 1..4 {
+            let mut v = idx.to_vec();
+            v[a] = di(c.rank, (c.suit + ds) % 4);
+            out.push(v);
+        }
+        for dr in [1usize, 12] {
+            let mut v = idx.to_vec();
+            v[a] = di((c.rank + dr) % 13, c.suit);
+            out.push(v);
+        }
+        for b in (a + 1)..n {
+            let d = &o.cards[idx[b]];
+            let mut v = idx.to_vec();
+            v[a] = di(c.rank, d.suit);
+            v[b] = di(d.rank, c.suit);
+            out.push(v);
+            let mut v = idx.to_vec();
+            v.swap(a, b);
+            out.push(v);
+        }
+    }
+    out.retain(|v| {
+        let mut d = v.clone();
+        d.sort_unstable();
+        d.dedup();
+        d.len() == n
+    });
+    out
+}
+
+pub fn repeat_then_neighbour_ranking(o: &Oracle, seed: u64, rep: &Report, thorough: bool) {
+    let mut rng = Rng::new(seed ^ 0x2E9);
+    let mut calls = 0u64;
+    let mut bad = 0;
+    // bases: one hand per class (five slots) and seeded six/seven-slot hands
+    let nbase5 = o.n_classes as usize;
+    let nbig = if thorough { 6000 } else { 1200 };
+    let mut bases: Vec<Vec<usize>> = vec![];
+    for k in 0..nbase5 {
+        let c = &o.classes[k];
+        let mut used = std::collections::HashSet::new();
+        let mut v = vec![];
+        for i in 0..5 {
+            let r = c.ranks[i] as usize;
+            let mut s = if c.flush { 2 } else { (i * 3 + k) % 4 };
+            while !used.insert((r, s)) {
+                s = (s + 1) % 4;
+            }
+            v.push(di(r, s));
+        }
+        bases.push(v);
+    }
+    for _ in 0..nbig {
+        let n = 6 + rng.below(2) as usize;
+        let mut d: Vec<usize> = if rng.below(2) == 0 { (0..52).collect() } else { let s = rng.below(35) as usize; (s..s + 16).collect() };
+        rng.shuffle(&mut d);
+        bases.push(d[..n].to_vec());
+    }
+    for (bi, base) in bases.iter().enumerate() {
+        let which = bi % 5;
+        let f = |idx: &[usize]| -> Result<u16, String> {
+            let w: Vec<u32> = idx.iter().map(|&i| o.cards[i].w).collect();
+            let h = Hand::from_words(&w);
+            guarded(|| match which {
+                0 => rank_value(&h),
+                1 => hand_rank(&h).value,
+                2 => rank_value_validated(&h),
+                3 => hand_rank_validated(&h).value,
+                _ => rank_value_and_hand(&h).value,
+            })
+        };
+        let exp = |idx: &[usize]| -> u16 {
+            let mut s = idx.to_vec();
+            s.sort_unstable();
+            o.best_of(&s)
+        };
+        let reps = 1 + bi % 3;
+        for y in hand_neighbours(o, base) {
+            for _ in 0..reps {
+                let _ = f(base);
+            }
+            calls += reps as u64 + 1;
+            let got = f(&y);
+            if got != Ok(exp(&y)) && bad < 4 {
+                bad += 1;
+                let w: Vec<u32> = y.iter().map(|&i| o.cards[i].w).collect();
+                let b: Vec<u32> = base.iter().map(|&i| o.cards[i].w).collect();
+                rep.violation(json!({"property": rep.property, "why": format!("ranking a hand {} time(s) in a row and then a neighbouring hand (one card re-suited / moved, suits or slots of two cards swapped) through entry point #{}: the neighbour got {:?} instead of {}", reps, which, got, exp(&y)),
+                    "event": {"op": if y.len() == 5 {"rank5"} else {"rankn"}, "words": hilo_arr(&w)}, "expected": {"value": exp(&y)}, "preceded_by": hilo_arr(&b), "note": "history-dependent: replaying the single call may pass"}));
+            }
+        }
+    }
+    // dealing card by card: the hand with one slot still blank is inspected first (every ranking entry point and,
+    // for five slots, the four predicates), then the completed hand
+    for (bi, base) in bases.iter().enumerate() {
+        let n = base.len();
+        let full: Vec<u32> = base.iter().map(|&i| o.cards[i].w).collect();
+        let mut s = base.clone();
+        s.sort_unstable();
+        let exp = o.best_of(&s);
+        let cls = &o.classes[exp as usize - 1];
+        for a in 0..n {
+            let mut partial = full.clone();
+            partial[a] = 0;
+            let r = guarded(|| {
+                let hp = Hand::from_words(&partial);
+                for _ in 0..(1 + (bi + a) % 2) {
+                    let _ = (rank_value(&hp), rank_value_validated(&hp), hand_rank(&hp).value);
+                    if n == 5 {
+                        let f = Five::from([partial[0], partial[1], partial[2], partial[3], partial[4]]);
+                        let _ = (f.is_flush(), f.is_straight(), f.is_straight_flush(), f.is_wheel());
+                    }
+                }
+                let h = Hand::from_words(&full);
+                let vals = (rank_value(&h), rank_value_validated(&h), hand_rank(&h).value, hand_rank_validated(&h).value);
+                let preds = if n == 5 {
+                    let f = Five::from([full[0], full[1], full[2], full[3], full[4]]);
+                    Some((f.is_flush(), f.is_straight(), f.is_straight_flush(), f.is_wheel()))
+                } else {
+                    None
+                };
+                (vals, preds)
+            });
+            calls += 12;
+            let e_preds = if n == 5 {
+                Some((cls.flush, cls.category == "Straight" || cls.category == "StraightFlush", cls.category == "StraightFlush", cls.ranks == [12, 3, 2, 1, 0]))
+            } else {
+                None
+            };
+            if r != Ok(((exp, exp, exp, exp), e_preds)) && bad < 8 {
+                bad += 1;
+                rep.violation(json!({"property": rep.property, "why": "inspecting a hand with one slot still blank and then the completed hand: the completed hand's values or predicates are not those of its own cards (the result depends on the calls made before)",
+                    "event": {"op": if n == 5 {"rank5"} else {"rankn"}, "words": hilo_arr(&full)},
+                    "expected": if n == 5 { json!({"value": exp, "flush": cls.flush, "straight": e_preds.unwrap().1, "straight_flush": e_preds.unwrap().2, "wheel": e_preds.unwrap().3}) } else { json!({"value": exp}) },
+                    "preceded_by": hilo_arr(&partial), "note": "history-dependent: replaying the single call may pass"}));
+            }
+        }
+    }
+    rep.eval(calls);
+    rep.space("history probe: each base hand ranked 1-3 times in a row, then each of its natural neighbours, per entry point; and each base hand with one slot blank, then completed", false, calls);
+}
+
+pub fn repeat_then_neighbour_misc(o: &Oracle, id: &str, _seed: u64, rep: &Report) {
+    use ckc_rs::deck::Deck;
+    let mut calls = 0u64;
+    let mut fail = |why: &str, ev: Value, exp: Value| {
+        rep.violation(json!({"property": rep.property, "why": why, "event": ev, "expected": exp, "note": "history-dependent: replaying the single call may pass"}));
+    };
+    match id {
+        "C18" => {
+            // deck access: an index, then a related index (and the other way round)
+            let rel = |i: u64| -> Vec<u64> { vec![i, i + 52, i + 256, i + (1 << 16), i + (1 << 32), i + (1 << 33), i | (1 << 63), u64::MAX - i, i + 1, i.wrapping_sub(1)] };
+            for i in 0..56u64 {
+                for a in rel(i) {
+                    for b in rel(i) {
+                        for reps in 1..=2 {
+                            let r = guarded(|| {
+                                for _ in 0..reps {
+                                    let _ = Deck::get(a as usize);
+                                }
+                                Deck::get(b as usize)
+                            });
+                            calls += reps + 1;
+                            let e = if b < 52 { o.cards[b as usize].w } else { 0 };
+                            if r != Ok(e) {
+                                fail("deck access right after a related index gives the wrong card", json!({"op":"deck_get","index":limbs(b)}), json!({"res": hilo(e)}));
+                                return;
+                            }
+                        }
+                    }
+                }
+            }
+        }
+        "C14" | "C15" => {
+            // a set, its peel, and conversions of the set before / after the peel, in every order
+            let all = o.all_bits;
+            let word_of = |x: u64| -> u32 { if x.count_ones() == 1 && x.trailing_zeros() < 52 { o.cards.iter().find(|c| c.bit == x.trailing_zeros()).unwrap().w } else { 0 } };
+            let mut sets: Vec<u64> = vec![];
+            for a in 0..52u32 {
+                sets.push(1 << a);
+                sets.push((1 << a) | (1 << ((a + 13) % 52)));
+                sets.push((1u64 << a) | (1 << ((a * 7 + 3) % 52)) | (1 << ((a * 11 + 5) % 52)));
+                sets.push((1u64 << a) | (1 << 52));
+            }
+            sets.push(all);
+            sets.push(0x1F00_0000_0000);
+            for &x in &sets {
+                let r = guarded(|| {
+                    let mut y = x;
+                    let c = y.peel();
+                    let after = [CKCNumber::from_binary_card(x), CKCNumber::from_binary_card(y), CKCNumber::from_binary_card(c), CKCNumber::from_binary_card(x)];
+                    let mut z = x;
+                    let c2 = z.peel();
+                    (c, y, after, c2, z, BinaryCard::from_ckc(CKCNumber::from_binary_card(c)))
+                });
+                calls += 8;
+                let cards = x & all;
+                let ec = if cards == 0 { 0 } else { 1u64 << (63 - cards.leading_zeros()) };
+                let ok = match &r {
+                    Ok((c, y, after, c2, z, back)) => {
+                        *c == ec && *y == x & !ec && *c2 == ec && *z == x & !ec && *back == ec
+                            && after[0] == word_of(x) && after[1] == word_of(*y) && after[2] == word_of(ec) && after[3] == word_of(x)
+                    }
+                    Err(_) => false,
+                };
+                if !ok {
+                    fail("peeling a set and converting the set before / after the peel: a conversion or a second peel depends on the peel made before", json!({"op":"ckc_from_bc","bc":limbs(x)}), json!({"res": hilo(word_of(x))}));
+                    return;
+                }
+            }
+        }
+        "C16" => {
+            // every ordered pair of cards: hand -> set (once, twice, three times) -> hand must be in deck order
+            use ckc_rs::cards::two::Two;
+            for a in &o.cards {
+                for b in &o.cards {
+                    if a.i == b.i {
+                        continue;
+                    }
+                    let reps = 1 + (a.i + b.i) % 3;
+                    let r = guarded(|| {
+                        let t = Two::new(a.w, b.w);
+                        let mut x = 0;
+                        for _ in 0..reps {
+                            x = BinaryCard::from_two(t);
+                        }
+                        (x, Two::try_from(x).map(|t| t.to_arr()))
+                    });
+                    calls += reps as u64 + 1;
+                    let (hi, lo) = if a.bit > b.bit { (a, b) } else { (b, a) };
+                    if r != Ok(((1u64 << a.bit) | (1u64 << b.bit), Ok([hi.w, lo.w]))) {
+                        fail("converting a two-card hand to a set (possibly more than once) and the set back: the cards are not returned in deck order", json!({"op":"two_from_bc","bc":limbs((1u64 << a.bit) | (1u64 << b.bit))}), json!({"kind": "ok", "res": hilo_arr(&[hi.w, lo.w])}));
+                        return;
+                    }
+                }
+            }
+        }
+        "C17" => {
+            // a two-card hand scored 1-3 times in a row, then the hand with one card re-suited / the slots swapped
+            for a in &o.cards {
+                for b in &o.cards {
+                    if a.i == b.i {
+                        continue;
+                    }
+                    let reps = 1 + (a.i * 5 + b.i) % 3;
+                    let mut ys: Vec<(usize, usize)> = vec![(b.i, a.i)];
+                    for ds in 1..4 {
+                        ys.push((di(a.rank, (a.suit + ds) % 4), b.i));
+                        ys.push((a.i, di(b.rank, (b.suit + ds) % 4)));
+                    }
+                    for (ya, yb) in ys {
+                        if ya == yb {
+                            continue;
+                        }
+                        let (ca, cb) = (&o.cards[ya], &o.cards[yb]);
+                        let r = guarded(|| {
+                            let mut t = Two::new(a.w, b.w);
+                            for _ in 0..reps {
+                                let _ = t.chen_formula();
+                            }
+                            // reach the neighbour through the setters of the same container
+                            t.set_first(ca.w);
+                            t.set_second(cb.w);
+                            (t.chen_formula() as i32, t.get_gap(), t.is_suited())
+                        });
+                        calls += reps as u64 + 1;
+                        let e = o.chen[&(ca.rank, cb.rank, ca.suit == cb.suit)];
+                        if r != Ok((e.0, e.1, ca.suit == cb.suit)) {
+                            fail("scoring a two-card hand (possibly more than once) and then a hand that differs in one card's suit or in slot order: the second score is not the Chen formula of its own cards", json!({"op":"chen","a":hilo(ca.w),"b":hilo(cb.w)}), json!({"score": e.0, "gap": e.1}));
+                            return;
+                        }
+                    }
+                }
+            }
+        }
+        "C10" => {
+            // the card recogniser / a hand validation, then construction from every enumeration pair
+            use crate::observe::{rank_enum, suit_enum, RANK_NAMES, SUIT_NAMES};
+            let mut pool: Vec<u32> = o.cards.iter().map(|c| c.w).collect();
+            pool.push(0);
+            pool.push(o.cards[51].w | o.flag_word("pair"));
+            for &w in &pool {
+                for rn in RANK_NAMES.iter() {
+                    for sn in SUIT_NAMES.iter() {
+                        let e = o.cards.iter().find(|c| c.rank_name == *rn && c.suit_name == *sn).map(|c| c.w).unwrap_or(0);
+                        let r = guarded(|| {
+                            let _ = CardNumber::filter(w);
+                            let _ = Hand::from_words(&[o.cards[0].w, o.cards[14].w, w]).is_valid();
+                            let _ = w.get_card_rank();
+                            CKCNumber::create(rank_enum(rn), suit_enum(sn))
+                        });
+                        calls += 4;
+                        if r != Ok(e) {
+                            fail("recognising / validating a word and then constructing a card from a (rank, suit) pair: construction does not produce the documented word (blank if a member is blank)", json!({"op":"create","rank":rn,"suit":sn}), json!({"res": hilo(e)}));
+                            return;
+                        }
+                    }
+                }
+            }
+        }
+        "C20" => {
+            // several live words marked, upgraded and stripped in an interleaved fashion
+            let mut rng = Rng::new(0xC20);
+            for _ in 0..200_000 {
+                let k = 2 + rng.below(3) as usize;
+                let base: Vec<u32> = (0..k).map(|_| o.cards[rng.below(52) as usize].w).collect();
+                let mut live = base.clone();
+                let r = guarded(|| {
+                    for _ in 0..(2 + rng.below(6)) {
+                        let j = rng.below(k as u64) as usize;
+                        live[j] = match rng.below(3) { 0 => live[j].flag_as_pair(), 1 => live[j].flag_as_trips(), _ => live[j].flag_as_quads() };
+                    }
+                    (0..k).all(|j| live[j].strip_multiples_flags() == base[j] && live[j] & o.flag_word("strip_mask") == base[j] && (live[j] == base[j] || o.cards.iter().all(|c| live[j] > c.w)))
+                });
+                calls += 8;
+                if r != Ok(true) {
+                    fail("marking several cards in an interleaved fashion and then stripping them: a stripped word is not its own card", json!({"op":"flag","w":hilo(base[0]),"marks":["pair","trips"]}), json!({"stripped": hilo(base[0])}));
+                    return;
+                }
+            }
+        }
+        "C07" => {
+            // comparison repeated, then a neighbouring pair of values
+            let vals: Vec<u16> = vec![0, 1, 2, 10, 11, 166, 167, 1599, 1600, 3325, 3326, 6185, 6186, 7461, 7462, 7463, 7464, 32767, 32768, 32769, 65534, 65535];
+            let nb = |v: u16| -> Vec<u16> { vec![v, v.wrapping_add(1), v.wrapping_sub(1), v ^ 0x8000, !v, v.rotate_left(8)] };
+            let real = |v: u16| v >= 1 && v <= o.n_classes;
+            for &a in &vals {
+                for &b in &vals {
+                    for a2 in nb(a) {
+                        for (x, y) in [(a2, b), (b, a2), (b, a), (a2, 7462), (7462, a2), (a2, 1), (a2, 7463)] {
+                            let r = guarded(|| {
+                                let (ra, rb) = (HandRank::from(a), HandRank::from(b));
+                                let _ = ra.cmp(&rb);
+                                let _ = ra < rb;
+                                let (rx, ry) = (HandRank::from(x), HandRank::from(y));
+                                (rx.cmp(&ry), ry.cmp(&rx), rx == ry, rx < ry, rx >= ry)
+                            });
+                            calls += 7;
+                            let ok = match r {
+                                Ok((c, c2, eq, lt, ge)) => {
+                                    let anchor = if real(x) && real(y) { c == y.cmp(&x) } else if !real(x) && real(y) { c == std::cmp::Ordering::Less }
+                                                 else if real(x) && !real(y) { c == std::cmp::Ordering::Greater } else { (c == std::cmp::Ordering::Equal) == (x == y) };
+                                    anchor && c2 == c.reverse() && eq == (x == y) && lt == (c == std::cmp::Ordering::Less) && ge == (c != std::cmp::Ordering::Less)
+                                }
+                                Err(_) => false,
+                            };
+                            if !ok {
+                                fail("comparing two ranks and then a neighbouring pair (a value next to it, operands swapped): the second comparison is not lawful", json!({"op":"cmp","a":x,"b":y}), json!({"lawful": true}));
+                                return;
+                            }
+                        }
+                    }
+                }
+            }
+        }
+        _ => {}
+    }
+    rep.eval(calls);
+    rep.space("history probe: repeat a call, then a naturally related input (see harness/src/props/history.rs)", false, calls);
+}
+
+/// Conversions value -> hand rank: every value converted once, twice or three times in a row, then each of its
+/// single-bit neighbours (and its complement), checked field by field against the specification.  One thread.
+pub fn conversion_neighbours(o: &Oracle, rep: &Report) {
+    let mut calls = 0u64;
+    for v in 0..=65535u32 {
+        let v = v as u16;
+        let reps = 1 + (v % 3) as usize;
+        for k in 0..17 {
+            let y = if k == 16 { !v } else { v ^ (1 << k) };
+            let r = guarded(|| {
+                for _ in 0..reps {
+                    let _ = HandRank::from(v);
+                }
+                let h = HandRank::from(y);
+                (h.value, format!("{:?}", h.name), format!("{:?}", h.class), h.is_invalid(), h.is_a_valid_hand_rank())
+            });
+            calls += reps as u64 + 1;
+            let real = y >= 1 && y <= o.n_classes;
+            if r != Ok((y, o.name_of(y).to_string(), o.class_of(y).to_string(), !real, true)) {
+                rep.violation(json!({"property": rep.property, "why": format!("converting {} {} time(s) in a row and then {}: the second rank does not describe the class whose ordinal is {} (the result depends on the calls made before)", v, reps, y, y),
+                    "event": {"op": "hr_from", "v": y}, "expected": {"value": y, "name": o.name_of(y), "class": o.class_of(y), "invalid": !real},
+                    "note": "history-dependent: replaying the single call may pass"}));
+                return;
+            }
+        }
+    }
+    rep.eval(calls);
+    rep.space("history probe: every 16-bit value converted 1-3 times in a row, then each single-bit neighbour and the complement", true, calls);
 }
